@@ -14,7 +14,7 @@ for m in sorted(glob.glob('/verif/seeded/*/meta.json')):
         other.append('%s (reported by %s: %s)' % (n, d['check']['caught_by_other_check'], d.get('history', '')[:200]))
     else:
         missed.append('%s (%s)' % (n, d.get('needs_to_manifest', '')[:200]))
-summ = '* **%d seeded changes kept** (two per property, independent sub-agents).\n' % (len(first) + len(later) + len(other) + len(missed))
+summ = '* **%d seeded changes kept** (two per property from independent sub-agents, plus a third, "subtler" round for C09 C16 C21 C26 C36 C42).\n' % (len(first) + len(later) + len(other) + len(missed))
 summ += '* reported at the first run (%d): %s.\n' % (len(first), ', '.join(first))
 summ += '* reported after the check was strengthened (%d):\n' % len(later) + ''.join('  * %s\n' % x for x in later)
 if other:
